@@ -19,7 +19,8 @@ func init() {
 			"O2 write-buffer state coupling on DagModifier{wrBuf, writeStart, curWrOff}: wrBuf.Write => curWrOff += n; wrBuf = nil => writeStart += flushed length; wrBuf.Reset() => curWrOff = writeStart; an absolute store to writeStart is preceded by a successful Sync and coupled with the same value stored to curWrOff; " +
 			"O3 every use of dm.curNode for output (reader creation, GetNode copy/collapse, dagTruncate) is preceded by Sync() on its nil-error edge (in the function or in every package-local caller); table exception: Size (combines the DAG size with the pending buffer by design) and the functions Sync itself runs; " +
 			"O4 cached-reader invalidation: every replacement of dm.curNode and every write into the buffer happens with dm.read dropped (dm.read = nil, or tested nil) in the same function: a reader created by an earlier Read must not survive a content change. " +
-			"NOT decided: equivalence with a byte-array model, correctness of modifyDag/appendData/dagTruncate content, trickle layout (C08).",
+			"O5 offset arithmetic: expandSparse only with a difference a-b guarded by a>b; Sync flushes in the order grow, modifyDag(curNode, writeStart), reload, appendData(splitter(wrBuf)) only if bytes are left; the recursive descents modifyDag/dagTruncate enter a child only where target < passed+childsize, hand it target-passed, advance passed by that child's own size in every iteration, move the target to the end of a processed child, record the truncated child with target-passed and keep the links before its index; leaves are cut at [:size]; Truncate rejects a negative size before converting it. " +
+			"NOT decided: equivalence with a byte-array model, content produced by modifyDag leaves/appendData, trickle layout (C08).",
 		Assume:    []string{"unexported DagModifier fields are only reachable from package unixfs/mod", "bytes.Buffer behaves as documented"},
 		Technique: "sibling agreement + switch exhaustiveness over the Seek family (R-SIB, R-EXH), coupled mutation (R-PAIR), edge dominance with caller-holds summaries (R-DOM)",
 		Run:       runC10,
@@ -475,6 +476,9 @@ func runC10(c *an.Ctx) {
 	}
 	c.Min("O4 content-change sites", nO4, 5)
 
+	// ---------------- O5: offset arithmetic (round 2)
+	c10Arithmetic(c, fns, fWrBuf, fStart, fNode)
+
 	// deterministic note about what family members were seen
 	var fam []string
 	for _, fn := range p.XBSeekMethods() {
@@ -482,4 +486,392 @@ func runC10(c *an.Ctx) {
 	}
 	sort.Strings(fam)
 	c.Note("O1 Seek family analysed: %s", strings.Join(fam, ", "))
+}
+
+// c10Arithmetic: O5 — sizes handed to expandSparse are proven non-negative differences, Sync flushes at writeStart in
+// the order grow -> overwrite -> append, and the recursive descents (modifyDag, dagTruncate) translate the absolute
+// offset into the child's coordinate system with the running sum of the sizes of the children already passed.
+func c10Arithmetic(c *an.Ctx, fns []*ssa.Function, fWrBuf, fStart, fNode *types.Var) {
+	p := c.P
+	const mod = "ipld/unixfs/mod"
+	loadOf := func(v ssa.Value, f *types.Var) bool {
+		u, ok := v.(*ssa.UnOp)
+		if !ok || u.Op != token.MUL {
+			return false
+		}
+		g, _ := an.FieldOf(u.X)
+		return g == f
+	}
+	same := func(a, b ssa.Value) bool {
+		a, b = an.XBStripConv(a), an.XBStripConv(b)
+		if a == b {
+			return true
+		}
+		// two loads of the same field of the same object
+		ua, ok1 := a.(*ssa.UnOp)
+		ub, ok2 := b.(*ssa.UnOp)
+		if ok1 && ok2 && ua.Op == token.MUL && ub.Op == token.MUL {
+			fa, ba := an.FieldOf(ua.X)
+			fb, bb := an.FieldOf(ub.X)
+			return fa != nil && fa == fb && an.SameObj(ba, bb)
+		}
+		return false
+	}
+	// ---- (a) expandSparse(a - b) only where a > b
+	nExp := 0
+	for _, fn := range fns {
+		for _, call := range an.Calls(fn, an.M(mod, "DagModifier", "expandSparse")) {
+			nExp++
+			arg := an.XBStripConv(an.Args(call)[0])
+			sub, ok := arg.(*ssa.BinOp)
+			okG := false
+			if ok && sub.Op == token.SUB {
+				edges := an.XBEdgesWhere(fn, func(r an.XBRel) bool {
+					if same(r.X, sub.X) && same(r.Y, sub.Y) {
+						return r.Op == token.GTR
+					}
+					if same(r.X, sub.Y) && same(r.Y, sub.X) {
+						return r.Op == token.LSS
+					}
+					return false
+				})
+				okG = len(edges) > 0 && an.GuardedBy(fn, nil, call, edges)
+			}
+			c.Check(okG, "O5", "R-CMP", an.FuncName(fn), "expandSparse(a-b)<=a>b", call.Pos(),
+				"the file is grown by a difference that was tested positive", "expandSparse is called with a size that is not a difference a-b guarded by a > b on the same operands: an unsigned underflow or a wrong operand grows the file by a bogus amount (misplaced or huge zero fill)")
+		}
+	}
+	c.Min("O5 expandSparse calls", nExp, 4)
+
+	// ---- (b) Sync: grow -> modifyDag(curNode, writeStart) -> reload its result -> appendData(only if bytes are left)
+	if sync := p.Func(mod, "DagModifier", "Sync"); sync != nil {
+		mods := an.Calls(sync, an.M(mod, "DagModifier", "modifyDag"))
+		apps := an.Calls(sync, an.M(mod, "DagModifier", "appendData"))
+		exps := an.Calls(sync, an.M(mod, "DagModifier", "expandSparse"))
+		c.Min("O5 modifyDag/appendData calls in Sync", len(mods)+len(apps), 2)
+		for _, m := range mods {
+			a := an.Args(m)
+			c.Check(loadOf(a[0], fNode) && loadOf(a[1], fStart), "O5", "R-FLOW", an.FuncName(sync), "modifyDag(curNode,writeStart)", m.Pos(),
+				"the buffer is written into the current DAG at writeStart", "Sync overwrites at an offset other than dm.writeStart (or in a node other than dm.curNode): buffered bytes land at the wrong position")
+			for _, e := range exps {
+				c.Check(an.Dominates(e, m) || !an.Reaches(sync, m, e, nil, nil), "O5", "R-DOM", an.FuncName(sync), "expandSparse-before-modifyDag", e.Pos(),
+					"the file is grown to writeStart before the overwrite", "Sync grows the file after overwriting: the overwrite runs on a DAG shorter than writeStart")
+			}
+			// the node written back is the one modifyDag produced
+			okGet := false
+			for _, g := range an.AllCalls(sync) {
+				if ci := an.Callee(g); ci.Name == "Get" && ci.Invoke {
+					for _, ga := range g.Common().Args {
+						for _, r := range an.Result(m, 0) {
+							if ga == r {
+								okGet = true
+							}
+						}
+					}
+				}
+			}
+			c.Check(okGet, "O5", "R-FLOW", an.FuncName(sync), "curNode=Get(modifyDag-result)", m.Pos(), "the DAG is reloaded from the CID modifyDag returned", "Sync does not reload dm.curNode from the CID returned by modifyDag")
+		}
+		for _, a := range apps {
+			okOrder := len(mods) > 0
+			for _, m := range mods {
+				if !an.Dominates(m, a) {
+					okOrder = false
+				}
+			}
+			c.Check(okOrder, "O5", "R-DOM", an.FuncName(sync), "modifyDag-before-appendData", a.Pos(),
+				"bytes that overlap the existing file are written before the rest is appended", "Sync appends the buffer before (or without) overwriting the overlapping part: bytes are duplicated or misplaced")
+			// only when bytes are left in the buffer
+			var lens []ssa.Value
+			for _, l := range an.Calls(sync, an.M("bytes", "Buffer", "Len")) {
+				if v := an.CallValue(l); v != nil && loadOf(an.Recv(l), fWrBuf) {
+					lens = append(lens, v)
+				}
+			}
+			left := an.XBEdgesWhere(sync, func(r an.XBRel) bool {
+				k, isK := an.XBInt64(r.Y)
+				isLen := false
+				for _, l := range lens {
+					if r.X == l {
+						isLen = true
+					}
+				}
+				return isLen && isK && ((k == 0 && (r.Op == token.GTR || r.Op == token.NEQ)) || (k == 1 && r.Op == token.GEQ))
+			})
+			c.Check(len(left) > 0 && an.GuardedBy(sync, nil, a, left), "O5", "R-DOM", an.FuncName(sync), "appendData<=wrBuf.Len()>0", a.Pos(),
+				"append only what is left in the buffer", "Sync calls appendData although the buffer may be empty (not guarded by wrBuf.Len() > 0)")
+			// and what is appended is the buffer
+			okSrc := false
+			for _, r := range an.Roots(an.Args(a)[1], nil) {
+				if call, ok := r.(*ssa.Call); ok {
+					for _, ca := range call.Call.Args {
+						if loadOf(an.XBStripConv(ca), fWrBuf) {
+							okSrc = true
+						}
+						if mi, ok := ca.(*ssa.MakeInterface); ok && loadOf(mi.X, fWrBuf) {
+							okSrc = true
+						}
+					}
+				}
+			}
+			c.Check(okSrc, "O5", "R-FLOW", an.FuncName(sync), "appendData(splitter(wrBuf))", a.Pos(), "the appended stream is the write buffer", "Sync appends a stream that is not built from dm.wrBuf")
+		}
+	}
+
+	// ---- (c) recursive descents by child size
+	nDesc := 0
+	for _, fn := range fns {
+		if fn.Parent() != nil {
+			continue
+		}
+		for _, rc := range an.AllCalls(fn) {
+			if an.Callee(rc).Static != fn {
+				continue
+			}
+			// a descent: the self call sits in a loop over the children, or leaves it (break) with a running sum as operand
+			inLoop := an.XBInCycle(rc.Block())
+			if !inLoop {
+				for _, a := range an.Args(rc) {
+					if b, ok := a.(*ssa.BinOp); ok && b.Op == token.SUB {
+						if ph, ok := b.Y.(*ssa.Phi); ok && an.XBInCycle(ph.Block()) {
+							inLoop = true
+						}
+					}
+				}
+			}
+			if !inLoop {
+				// ... or is reached only across a comparison with a running sum (phi of a loop + size)
+				for e, r := range an.XBEdgeRels(fn) {
+					for _, side := range []ssa.Value{r.X, r.Y} {
+						if a, ok := side.(*ssa.BinOp); ok && a.Op == token.ADD {
+							for _, op := range []ssa.Value{a.X, a.Y} {
+								if ph, ok := op.(*ssa.Phi); ok && an.XBInCycle(ph.Block()) && an.XBMustCross(fn, nil, rc, e) {
+									inLoop = true
+								}
+							}
+						}
+					}
+				}
+			}
+			if !inLoop {
+				continue
+			}
+			name := an.FuncName(fn)
+			args := an.Args(rc)
+			var child, off ssa.Value
+			for _, a := range args {
+				if types.IsInterface(a.Type()) && an.TypeIs(a.Type(), "github.com/ipfs/go-ipld-format", "Node") {
+					child = a
+				}
+				if b, ok := a.Type().Underlying().(*types.Basic); ok && b.Kind() == types.Uint64 {
+					off = a
+				}
+			}
+			if child == nil || off == nil {
+				continue
+			}
+			nDesc++
+			sub, ok := off.(*ssa.BinOp)
+			if !ok || sub.Op != token.SUB {
+				c.Bad("O5", "R-FLOW", name, "child-offset=target-passed", rc.Pos(), "the offset/size handed to the child is not (target - sum of the sizes of the children already passed): the child is modified/truncated at the parent's coordinate")
+				continue
+			}
+			target, cur := sub.X, sub.Y
+			curPhi, isPhi := cur.(*ssa.Phi)
+			// cur = phi(0, cur + B) with the addition executed in every iteration
+			var B ssa.Value
+			okCur := isPhi
+			if isPhi {
+				for _, e := range curPhi.Edges {
+					if k, isK := an.XBInt64(e); isK && k == 0 {
+						continue
+					}
+					add, ok := e.(*ssa.BinOp)
+					if !ok || add.Op != token.ADD || !(add.X == ssa.Value(curPhi) || add.Y == ssa.Value(curPhi)) {
+						okCur = false
+						continue
+					}
+					b := add.Y
+					if add.Y == ssa.Value(curPhi) {
+						b = add.X
+					}
+					if B != nil && B != b {
+						okCur = false
+					}
+					B = b
+				}
+			}
+			c.Check(okCur && B != nil, "O5", "R-FLOW", name, "passed+=childsize-every-iteration", rc.Pos(),
+				"the running sum grows by the size of every child that is passed", "the running sum of passed child sizes is not advanced by exactly one child size in every iteration (starting at 0): children after the first are addressed with a wrong relative offset")
+			if !okCur || B == nil {
+				continue
+			}
+			// guard: target < cur + B
+			edges := an.XBEdgesWhere(fn, func(r an.XBRel) bool {
+				isSum := func(v ssa.Value) bool {
+					a, ok := v.(*ssa.BinOp)
+					return ok && a.Op == token.ADD && ((a.X == cur && a.Y == B) || (a.Y == cur && a.X == B))
+				}
+				if isSum(r.X) && r.Y == target {
+					return r.Op == token.GTR
+				}
+				if isSum(r.Y) && r.X == target {
+					return r.Op == token.LSS
+				}
+				return false
+			})
+			c.Check(len(edges) > 0 && an.GuardedBy(fn, nil, rc, edges), "O5", "R-CMP", name, "descend<=target<passed+childsize", rc.Pos(),
+				"a child is entered only where the target lies before its end", "the descent into a child is not guarded by target < passed + childsize on the same values: the wrong child is modified, or target - passed underflows")
+			// B is the size of the very child that is entered
+			okB := false
+			if fc, ok := an.IsCallTo(B, an.M(mod, "", "fileSize")); ok && fc.Call.Args[0] == child {
+				okB = true
+			}
+			if l, ok := B.(*ssa.UnOp); ok && l.Op == token.MUL {
+				if ia, ok := l.X.(*ssa.IndexAddr); ok {
+					if gn, ok := an.IsCallTo(child, an.M("github.com/ipfs/go-ipld-format", "Link", "GetNode")); ok {
+						if ll, ok := an.Recv(gn).(*ssa.UnOp); ok && ll.Op == token.MUL {
+							if ia2, ok := ll.X.(*ssa.IndexAddr); ok && ia2.Index == ia.Index {
+								okB = true
+							}
+						}
+					}
+				}
+			}
+			c.Check(okB, "O5", "R-FLOW", name, "childsize-belongs-to-entered-child", rc.Pos(),
+				"the size compared and accumulated is the size of the child that is entered (same index / same node)", "the size used for the descent does not belong to the child that is entered (different index or node): sizes and links are mismatched")
+			// the target is either loop-invariant, or moved to the end of the child after it was processed
+			if _, isPhi := target.(*ssa.Phi); !isPhi && an.Reaches(fn, rc, rc, nil, nil) {
+				c.Bad("O5", "R-FLOW", name, "target=end-of-child-after-descent", rc.Pos(), "the loop goes on to further children after writing into one, but the target offset is never moved to the end of the processed child: the rest of the data is written at a wrong relative offset of the next child")
+			}
+			if tp, ok := target.(*ssa.Phi); ok {
+				okT := true
+				sawAdd := false
+				var walk func(v ssa.Value, d int)
+				walk = func(v ssa.Value, d int) {
+					if d > 4 {
+						okT = false
+						return
+					}
+					switch x := v.(type) {
+					case *ssa.Phi:
+						if x == tp {
+							return
+						}
+						for _, e := range x.Edges {
+							walk(e, d+1)
+						}
+					case *ssa.BinOp:
+						if x.Op == token.ADD && ((x.X == cur && x.Y == B) || (x.Y == cur && x.X == B)) {
+							sawAdd = true
+							return
+						}
+						okT = false
+					case *ssa.Parameter:
+					default:
+						okT = false
+					}
+				}
+				for _, e := range tp.Edges {
+					walk(e, 0)
+				}
+				c.Check(okT && sawAdd, "O5", "R-FLOW", name, "target=end-of-child-after-descent", rc.Pos(),
+					"after a child was processed the target moves to the end of that child", "after writing into a child the target offset is not moved to passed + childsize: the remaining bytes are written into the next child at a wrong relative offset")
+			}
+			// a size recorded for the entered child must be the same difference
+			for _, ab := range an.Calls(fn, an.M("ipld/unixfs", "FSNode", "AddBlockSize")) {
+				v := an.Args(ab)[0]
+				if v == B {
+					continue // kept child recorded with its own size
+				}
+				nDesc++
+				d, ok := v.(*ssa.BinOp)
+				c.Check(ok && d.Op == token.SUB && d.X == target && d.Y == cur, "O5", "R-FLOW", name, "recorded-size=target-passed", ab.Pos(),
+					"the truncated child is recorded with the size it was truncated to", "the size recorded for the truncated child is not the value (target - passed) it was truncated to")
+			}
+			// a re-slice of the link list ends at the index of the entered child
+			for _, sl := range an.Calls(fn, an.M("ipld/merkledag", "ProtoNode", "SetLinks")) {
+				s, ok := an.Args(sl)[0].(*ssa.Slice)
+				if !ok {
+					continue
+				}
+				nDesc++
+				okEnd := false
+				if ph, ok := s.High.(*ssa.Phi); ok && s.Low == nil {
+					okEnd = true
+					nonInit := 0
+					for _, e := range ph.Edges {
+						if k, isK := an.XBInt64(e); isK && k == 0 {
+							continue
+						}
+						nonInit++
+						// must be the loop index of the iteration that entered the child
+						idxOK := false
+						if gn, ok := an.IsCallTo(child, an.M("github.com/ipfs/go-ipld-format", "Link", "GetNode")); ok {
+							if ll, ok := an.Recv(gn).(*ssa.UnOp); ok {
+								if ia, ok := ll.X.(*ssa.IndexAddr); ok && ia.Index == e {
+									idxOK = true
+								}
+							}
+						}
+						if !idxOK {
+							okEnd = false
+						}
+					}
+					if nonInit == 0 {
+						okEnd = false
+					}
+				}
+				c.Check(okEnd, "O5", "R-FLOW", name, "kept-links=[:index-of-truncated-child]", sl.Pos(),
+					"the links kept are those before the truncated child", "the link list is cut at an index that is not the index of the child that was truncated: a child is lost or kept twice")
+			}
+		}
+	}
+	c.Min("O5 recursive descents", nDesc, 2)
+
+	// ---- (d) leaf truncation cuts at the requested size; Truncate hands its own size down and rejects a negative one
+	if tr := p.Func(mod, "DagModifier", "Truncate"); tr != nil {
+		size := ssa.Value(tr.Params[1])
+		for _, call := range an.Calls(tr, an.M(mod, "DagModifier", "dagTruncate")) {
+			a := an.Args(call)
+			c.Check(an.XBStripConv(a[2]) == size && loadOf(a[1], fNode), "O5", "R-FLOW", an.FuncName(tr), "dagTruncate(curNode,size)", call.Pos(),
+				"the current DAG is truncated to the requested size", "Truncate cuts a node other than dm.curNode or at a size other than its argument")
+		}
+		nonneg := an.XBEdgesWhere(tr, func(r an.XBRel) bool {
+			k, isK := an.XBInt64(r.Y)
+			return isK && r.X == size && ((k == 0 && r.Op == token.GEQ) || (k == -1 && r.Op == token.GTR))
+		})
+		bad := ""
+		pos := tr.Pos()
+		an.Instrs(tr, func(in ssa.Instruction) {
+			if cv, ok := in.(*ssa.Convert); ok && cv.X == size {
+				if b, ok := cv.Type().Underlying().(*types.Basic); ok && b.Info()&types.IsUnsigned != 0 && an.Reaches(tr, nil, in, nonneg, nil) {
+					bad = "uint64(size)"
+					pos = cv.Pos()
+				}
+			}
+		})
+		c.Check(bad == "", "O5", "R-DOM", an.FuncName(tr), "negative-size-rejected", pos,
+			"the size is converted to unsigned only where it was tested non-negative", "Truncate converts its signed size to unsigned without rejecting a negative value: Truncate(-1) walks the DAG with a huge size (nil node dereference) instead of returning an error")
+	}
+	if dt := p.Func(mod, "DagModifier", "dagTruncate"); dt != nil {
+		size := ssa.Value(dt.Params[len(dt.Params)-1])
+		n := 0
+		an.Instrs(dt, func(in ssa.Instruction) {
+			sl, ok := in.(*ssa.Slice)
+			if !ok {
+				return
+			}
+			if _, isBytes := sl.Type().Underlying().(*types.Slice); !isBytes {
+				return
+			}
+			if e, ok := sl.Type().Underlying().(*types.Slice).Elem().Underlying().(*types.Basic); !ok || e.Kind() != types.Uint8 {
+				return
+			}
+			n++
+			c.Check(sl.Low == nil && sl.High == size, "O5", "R-FLOW", an.FuncName(dt), "leaf-data[:size]", sl.Pos(),
+				"leaf data is cut to [:size]", "a leaf is truncated to something other than data[:size]")
+		})
+		c.Min("O5 leaf truncation slices", n, 2)
+	}
 }
